@@ -595,3 +595,103 @@ Proof.
 Qed.
 
 End Nav.
+
+(* ---------------------------------------------------------------- the canonical rendering *)
+
+(* a document of the fragment: numerals of the fragment, strings / member names without quote,
+   backslash, control bytes and bytes >= 0x80, nested at most [dp] deep *)
+Fixpoint jwf (dp : nat) (d : json) {struct d} : Prop :=
+  match d with
+  | JNull | JBool _ => True
+  | JNum t => num_ok t = true
+  | JStr s => all_ch str_ch s = true
+  | JArr l =>
+      match dp with
+      | O => False
+      | S dp' => (fix all (l : list json) : Prop :=
+                    match l with [] => True | x :: l' => jwf dp' x /\ all l' end) l
+      end
+  | JObj m =>
+      match dp with
+      | O => False
+      | S dp' => (fix all (m : list (string * json)) : Prop :=
+                    match m with
+                    | [] => True
+                    | kv :: m' => (all_ch str_ch (fst kv) = true /\ jwf dp' (snd kv)) /\ all m'
+                    end) m
+      end
+  end.
+
+Lemma wsp_nil : wsp "".
+Proof. reflexivity. Qed.
+
+Definition render_elems : list json -> string :=
+  fix elems (l : list json) : string :=
+    match l with
+    | [] => "]"
+    | [x] => render x ++ "]"
+    | x :: l' => render x ++ "," ++ elems l'
+    end.
+Definition render_membs : list (string * json) -> string :=
+  fix membs (m : list (string * json)) : string :=
+    match m with
+    | [] => "}"
+    | [(n, x)] => """" ++ n ++ """:" ++ render x ++ "}"
+    | (n, x) :: m' => """" ++ n ++ """:" ++ render x ++ "," ++ membs m'
+    end.
+
+Lemma render_elems_renders dp x l :
+  (forall y, In y (x :: l) -> renders dp y (render y)) -> renders_elems dp (x :: l) (render_elems (x :: l)).
+Proof.
+  revert x. induction l as [|y l IHl]; intros x H.
+  - apply (RE_last dp x "" (render x) "" wsp_nil wsp_nil). apply H. now left.
+  - apply (RE_cons dp x (y :: l) "" (render x) "" _ wsp_nil wsp_nil); [apply H; now left|].
+    apply IHl. intros z Hz. apply H. now right.
+Qed.
+
+Lemma render_membs_renders dp n x m :
+  (forall kv, In kv ((n, x) :: m) -> all_ch str_ch (fst kv) = true /\ renders dp (snd kv) (render (snd kv))) ->
+  renders_membs dp ((n, x) :: m) (render_membs ((n, x) :: m)).
+Proof.
+  revert n x. induction m as [|[n2 y] m IHm]; intros n x H; destruct (H (n, x) (or_introl eq_refl)) as [Hn Hx];
+    cbn [fst snd] in Hn, Hx.
+  - apply (RM_last dp n x "" "" "" (render x) "" wsp_nil wsp_nil wsp_nil wsp_nil Hn Hx).
+  - apply (RM_cons dp n x ((n2, y) :: m) "" "" "" (render x) "" _ wsp_nil wsp_nil wsp_nil wsp_nil Hn Hx).
+    apply IHm. intros z Hz. apply H. now right.
+Qed.
+
+Lemma render_renders : forall d dp, jwf dp d -> renders dp d (render d).
+Proof.
+  fix IH 1. intros d dp H. destruct d as [|b|t|s|l|m].
+  - apply R_null.
+  - destruct b; [apply R_true | apply R_false].
+  - apply R_num. exact H.
+  - apply (R_str dp s H).
+  - destruct dp as [|dp]; [destruct H|]. cbn [jwf] in H.
+    assert (A : forall y, In y l -> renders dp y (render y)).
+    { induction l as [|a l IHl]; intros y Hy; [destruct Hy|]. destruct H as [Ha Hl].
+      destruct Hy as [<-|Hy]; [apply (IH a dp Ha) | apply (IHl Hl y Hy)]. }
+    destruct l as [|x l].
+    + apply (R_arr0 dp "" wsp_nil).
+    + change (render (JArr (x :: l))) with (String "[" (render_elems (x :: l))).
+      apply R_arr. apply render_elems_renders. exact A.
+  - destruct dp as [|dp]; [destruct H|]. cbn [jwf] in H.
+    assert (A : forall kv, In kv m -> all_ch str_ch (fst kv) = true /\ renders dp (snd kv) (render (snd kv))).
+    { induction m as [|a m IHm]; intros y Hy; [destruct Hy|]. destruct H as [[Hn Ha] Hm].
+      destruct Hy as [<-|Hy]; [split; [exact Hn | apply (IH (snd a) dp Ha)] | apply (IHm Hm y Hy)]. }
+    destruct m as [|[n x] m].
+    + apply (R_obj0 dp "" wsp_nil).
+    + change (render (JObj ((n, x) :: m))) with (String "{" (render_membs ((n, x) :: m))).
+      apply R_obj. apply render_membs_renders. exact A.
+Qed.
+
+Theorem parse_render d : jwf max_depth d -> parse_json (render d) = JOk (norm d).
+Proof.
+  intros H. apply parse_json_text. exists "", (render d), "".
+  split; [reflexivity|]. split; [reflexivity|]. split; [apply render_renders; exact H|].
+  cbn [append]. now rewrite sapp_nil_r.
+Qed.
+
+Theorem parse_render_distinct d :
+  jwf max_depth d -> names_distinct d -> parse_json (render d) = JOk d.
+Proof. intros H Hd. rewrite (parse_render d H), (norm_distinct d Hd). reflexivity. Qed.
